@@ -251,6 +251,44 @@ pub fn generate(ctx: &Ctx, rng: &mut Rng, n_ops: u64) -> String {
             }
         }
     }
+    // the same with a service trip in the middle: removing it from [a, x, b] must be refused
+    let mut gaps: Vec<(usize, usize, usize)> = vec![];
+    for a in 0..nn {
+        for x in 0..nn {
+            for b in 0..nn {
+                let (na, nx, nb) = (ctx.n(a), ctx.n(x), ctx.n(b));
+                let nw = &ctx.nw;
+                if nw.node(na).is_service()
+                    && nw.node(nx).is_service()
+                    && nw.node(nb).is_service()
+                    && nw.vehicle_type_for(na) == nw.vehicle_type_for(nb)
+                    && nw.vehicle_type_for(na) == nw.vehicle_type_for(nx)
+                    && nw.can_reach(na, nx)
+                    && nw.can_reach(nx, nb)
+                    && !nw.can_reach(na, nb)
+                {
+                    gaps.push((a, x, b));
+                }
+            }
+        }
+    }
+    if !gaps.is_empty() && rng.chance(60) {
+        let (a, x, b) = *rng.pick(&gaps);
+        let vt = ctx.nw.vehicle_type_for(ctx.n(a)).0 as usize;
+        do_op(&mut st, &mut s, format!("spawn {} {} {} {}", vt, a, x, b));
+        if let Some(&r) = st.regs.keys().last() {
+            do_op(&mut st, &mut s, format!("removable {} {} {}", r, x, x));
+            do_op(&mut st, &mut s, format!("remove {} {} {}", r, x, x));
+            do_op(&mut st, &mut s, format!("mkdummy {} {}", vt, r));
+            if let Some(&d) = st.regs.keys().last() {
+                if st.regs[&d].is_dummy() {
+                    do_op(&mut st, &mut s, format!("removable {} {} {}", d, x, x));
+                    do_op(&mut st, &mut s, format!("remove {} {} {}", d, x, x));
+                    do_op(&mut st, &mut s, format!("subpath {} {} {}", d, a, b));
+                }
+            }
+        }
+    }
     if !triples.is_empty() && rng.chance(50) {
         let (a, m, b) = *rng.pick(&triples);
         let vt = ctx.nw.vehicle_type_for(ctx.n(a)).0 as usize;
